@@ -38,6 +38,12 @@ def _same(a, b, depth=0):
     if isinstance(a, str) and isinstance(b, str) and (
             'Traceback (most recent call last)' in a or 'Traceback (most recent call last)' in b or a == '' or b == ''):
         return True        # texts of tracebacks differ between the interpreter and CPython (or are modelled empty)
+    if hasattr(a, '__next__') and hasattr(b, '__next__'):
+        # two iterators (e.g. the native `enumerate` and the interpreter's lazy enumerate): the same items
+        try:
+            return _same(list(a), list(b), depth + 1)
+        except Exception:
+            return False
     if _plain(a) and _plain(b):
         return type(a) is type(b) and a == b
     if _plain(a) != _plain(b):
